@@ -19,7 +19,9 @@ EXTENDS BiomValue, TLC
 
 SeqSet(s)   == {s[i] : i \in 1..Len(s)}
 IsInj(s)    == Cardinality(SeqSet(s)) = Len(s)
-Idx(seq, e) == CHOOSE k \in 1..Len(seq) : seq[k] = e
+\* position of e in seq; 0 when absent (operators below are total: judging a corrupted or
+\* incoherent trace must yield FALSE clauses, never a TLC evaluation error)
+Idx(seq, e) == IF \E k \in 1..Len(seq) : seq[k] = e THEN CHOOSE k \in 1..Len(seq) : seq[k] = e ELSE 0
 IdxSeq(n)   == [i \in 1..n |-> i]
 Pick(s, ix) == [k \in 1..Len(ix) |-> s[ix[k]]]        \* s re-indexed by the index sequence ix
 SelIdx(s, P(_)) == SelectSeq(IdxSeq(Len(s)), LAMBDA i : P(s[i]))
@@ -34,12 +36,14 @@ NObs(t)    == Len(t.obs)
 NSamp(t)   == Len(t.samp)
 Col(t, j)  == [i \in 1..Len(t.mat) |-> t.mat[i][j]]
 Vec(t, ax, k)    == IF ax = "observation" THEN t.mat[k] ELSE Col(t, k)
-VecOf(t, ax, id) == Vec(t, ax, Idx(Ids(t, ax), id))
-Val(t, o, s)     == t.mat[Idx(t.obs, o)][Idx(t.samp, s)]
 Has(t, ax, id)   == id \in SeqSet(Ids(t, ax))
+VecOf(t, ax, id) == IF Has(t, ax, id) THEN Vec(t, ax, Idx(Ids(t, ax), id)) ELSE <<>>
+Val(t, o, s)     == IF Has(t, "observation", o) /\ Has(t, "sample", s)
+                       /\ Idx(t.obs, o) <= Len(t.mat) /\ Idx(t.samp, s) <= Len(t.mat[Idx(t.obs, o)])
+                    THEN t.mat[Idx(t.obs, o)][Idx(t.samp, s)] ELSE <<0, 0>>
 \* metadata row of the k-th ID as a set of entries; no metadata = empty row
 RowAt(t, ax, k)  == IF Md(t, ax).has /\ k \in 1..Len(Md(t, ax).rows) THEN SeqSet(Md(t, ax).rows[k]) ELSE {}
-RowOf(t, ax, id) == RowAt(t, ax, Idx(Ids(t, ax), id))
+RowOf(t, ax, id) == IF Has(t, ax, id) THEN RowAt(t, ax, Idx(Ids(t, ax), id)) ELSE {<<"#missing-id", "u", <<>>>>}
 RowKeys(r)       == {e[1] : e \in r}
 
 \* structurally well-shaped: every positional access below is defined
